@@ -10,6 +10,9 @@ for id in $(jq -r '.checks[].property_id' MANIFEST.json); do
   if [ -f "engine/$lower/SCHEDULED" ]; then
     ov=".work/setup-ov-$lower"; mkdir -p "$ov"
     (cd engine && go run ./instr -repo /repo -out "../$ov" && go build -overlay "../$ov/overlay.json" -tags verifsched -o ../.work/bin/$lower ./$lower) || rc=1
+    if [ -f "engine/$lower/RACE" ]; then
+      (cd engine && go build -race -overlay "../$ov/overlay.json" -tags verifsched -o ../.work/bin/$lower-race ./$lower) || rc=1
+    fi
     rm -rf "$ov"
   else
     mkdir -p .work/bin
